@@ -231,6 +231,21 @@ func (g *gen) compoundAssign() Stmt {
 			rt = t.ScalarOf()
 		}
 		rhs = g.expr(rt, g.exprDepth())
+		// Known finding (tag compound-assign.rhs-call): `x op= f()` is lowered with
+		// the call before the load of x, so a callee that writes x changes the result;
+		// keep user calls out of the right side when the target is a module-scope variable.
+		if rv := RootVar(lhs); rv != nil && (rv.Kind == VStorage || rv.Kind == VPrivate || rv.Kind == VWorkgroup) {
+			hasCall := false
+			WalkExpr(rhs, func(e Expr) bool {
+				if _, ok := e.(*CallE); ok {
+					hasCall = true
+				}
+				return !hasCall
+			})
+			if hasCall && g.f.off("compound-assign.rhs-call") {
+				rhs = g.leaf(rt, 0)
+			}
+		}
 	}
 	return &Assign{L: lhs, Op: op, R: rhs}
 }
@@ -708,7 +723,7 @@ func GenExec(t *rapid.T, f Features) *ExecCase {
 			}
 		}
 		pv := &Var{Name: g.name("pv"), Kind: VPrivate, T: pt}
-		if (g.chance(50, "privinit") || f.off("var.no-init")) && !(pt.ContainsStruct() && f.off("private.init.struct")) && !(pt.K == TVec && pt.S == Bool && f.off("private-init.bool-splat")) {
+		if (g.chance(50, "privinit") || f.off("var.no-init")) && !(pt.ContainsStruct() && f.off("private.init.struct")) && !(containsBoolVec(pt) && f.off("private-init.bool-splat")) {
 			g.noNeg = f.off("private-init.unary")
 			pv.Init = g.constOf(pt)
 			g.noNeg = false
@@ -862,4 +877,21 @@ func (g *gen) privCount() int {
 		return 0
 	}
 	return n
+}
+
+// containsBoolVec reports whether t is, or contains, a vector of bool.
+func containsBoolVec(t *Type) bool {
+	switch t.K {
+	case TVec:
+		return t.S == Bool
+	case TArray:
+		return containsBoolVec(t.Elem)
+	case TStruct:
+		for _, m := range t.St.Members {
+			if containsBoolVec(m.T) {
+				return true
+			}
+		}
+	}
+	return false
 }
